@@ -10,7 +10,8 @@
 From Coq Require Import ZArith List Bool String Reals.
 From FpyV Require Import Num.RealFloat Num.Float Num.CtxDef Lang.Syntax Lang.Values Lang.Sem Lang.NumInst
   Analysis.ClassLattice Analysis.ClassLatticeProofs Analysis.Instr Analysis.InstrProofs
-  Analysis.FactClass Analysis.FactClassProofs Analysis.FactClassInst.
+  Analysis.FactClass Analysis.FactClassProofs Analysis.FactClassInst
+  Analysis.FactReach Analysis.FactReachProofs Analysis.FactConst Analysis.FactConstProofs.
 Import ListNotations.
 
 (* The instrumented evaluator is the evaluator: same result at every fuel. *)
@@ -28,7 +29,7 @@ Print Assumptions C13_instrumented_is_sem.
    one rounding" class behaviour (NumClassSpec). *)
 Theorem C13_class_facts_sound : forall (N : numops) (Rd : ctx -> cls -> cls),
   NumClassSpec N Rd ->
-  forall (P : program) (f : afunc ann), check_class_func Rd f = true ->
+  forall (P : program) (f : afunc ann), check_class_func Rd (n_ctor N) f = true ->
   forall n vs mu C,
     Forall2 (fun ax v => sat_cls (rep (fst ax)) v = true) (af_params f) vs ->
     Forall (fun ev => ev_class_ok ev = true) (fst (icall ann N P n f vs mu C)).
@@ -39,6 +40,49 @@ Print Assumptions C13_class_facts_sound.
 Theorem C13_class_spec_instance : NumClassSpec okprov_numops R_prov.
 Proof. exact okprov_class_spec. Qed.
 Print Assumptions C13_class_spec_instance.
+
+(* const_facts_sound: if the checker accepts the reported constants, every
+   expression reported constant evaluates to that constant (same class, sign
+   and value) in every execution.  The checker re-evaluates with the model in
+   the environment of the names it knows to be constant; soundness is
+   determinism of pure scalar evaluation. *)
+Theorem C13_const_facts_sound : forall (N : numops) (P : program) (f : afunc ann),
+  check_const_func N P f = true ->
+  forall n vs mu C, Forall (fun ev => ev_const_ok ev = true) (fst (icall ann N P n f vs mu C)).
+Proof. exact const_facts_sound_call. Qed.
+Print Assumptions C13_const_facts_sound.
+
+(* reach_facts_sound: if the checker accepts the reported definition / use /
+   phi structure then in every execution every variable read observes a
+   binding made at a site whose definition reaches (through the reported phis
+   T) the definition the read resolves to, and the value at every phi point was
+   bound by a definition reaching the phi.  IndexedAssign is a fresh
+   definition of the list; loop heads need the back edge. *)
+Theorem C13_reach_facts_sound : forall (T : ptable) (N : numops) (P : program) (f : afunc ann),
+  check_reach_func T f = true ->
+  forall n vs mu C,
+    Forall (fun ev => match ev with
+                      | EvUse a (Some ad) => reach T (an_def a) (an_def ad)
+                      | EvUse _ None => False
+                      | EvPhi a _ _ (Some ad) => reach T (an_def a) (an_def ad)
+                      | EvPhi _ _ _ None => False
+                      | _ => True
+                      end) (fst (icall ann N P n f vs mu C)).
+Proof. exact reach_facts_sound_call. Qed.
+Print Assumptions C13_reach_facts_sound.
+
+(* the executable form of the reach claim (evaluated on model traces in the tie) implies it *)
+Theorem C13_reach_claim_decidable : forall T ev, ev_reach_okb T ev = true -> evr T ev.
+Proof. exact ev_reach_okb_sound. Qed.
+Print Assumptions C13_reach_claim_decidable.
+
+(* determinism behind the constant checker: a pure scalar expression has one
+   value in all environments that agree on the checker's names *)
+Theorem C13_pure_evaluation_deterministic : forall (N : numops) (P : program) k e G s D1 D2 mu1 mu2 C v1 v2 m1 m2,
+  snd (ieval ann N P k G D1 mu1 C e) = ROk (v1, m1) -> snd (ieval ann N P k s D2 mu2 C e) = ROk (v2, m2) ->
+  pure_e e = true -> cinv G s -> gscalar G -> v1 = v2.
+Proof. exact pure_agree. Qed.
+Print Assumptions C13_pure_evaluation_deterministic.
 
 (* Branch refinement: whatever a condition's truth value implies for
    value_class (isnan / isinf / isfinite / == 0 / != 0 / orderings, through
@@ -84,7 +128,7 @@ Print Assumptions C13_round_table.
 
 (* hypotheses are satisfiable: a function the checker accepts *)
 Example C13_example_accepts :
-  check_class_func R_prov
+  check_class_func R_prov (n_ctor okprov_numops)
     (AFunc [(Ann (Some c_top) None None 0 [], "x"%string)] (Some CReal)
        [ASReturn (AOp2 (Ann (Some (Cls true false true false)) (Some CReal) None 0 []) OMul
                     (AVar (Ann (Some c_top) None None 0 []) "x"%string)
